@@ -24,33 +24,60 @@ func c06Scenarios(tier string) []*hist.Scenario {
 		{"cnt", []string{"init.c"}, []string{"c.inc1"}},
 		{"tree", []string{"init.tr"}, []string{"tr.insT1", "tr.delP0", "tr.sty0"}},
 	}
+	mk := func(f family, al []string, tag string, n, late, k, y, d, maxPer int, cfg hist.Config) {
+		name := fmt.Sprintf("c06/%s/%s/%sN%dL%dK%dY%dD%d", f.name, strings.Join(al, "+"), tag, n, late, k, y, d)
+		out = append(out, &hist.Scenario{Name: name, N: n, Late: late, Init: f.init, Alphabet: al, K: k, Y: y, D: d, MaxPerClient: maxPer, Cfg: cfg})
+	}
+	snap := hist.Config{Threshold: 1, Interval: 1}
+	snap2 := hist.Config{Threshold: 2, Interval: 2}
+	optout := hist.Config{Threshold: hist.Big, Interval: hist.Big, OptOut: []int{1}}
+	// Smallest shapes first (histories in normal form before no-effect pruning,
+	// `vcheck countshape`): N2K2Y3 0.25k (pair of kinds 0.84k), N3K3Y3 one edit
+	// per client 0.93k, N1L1K2Y3 1.5k, N2K1Y2D2 3.8k, N2L1K2Y2D1 5.9k, N2K3Y3 pair
+	// 3.9k, N3K3Y4 3.9k, N2L1K2Y3D1 32k, N2K2Y3D2 64k, N2L1K2Y2D2 92k.
 	for _, f := range fams {
 		for _, al := range pairs(f.ops) {
 			if tier == "quick" && len(al) == 2 && f.name != "arr" && f.name != "obj" {
 				continue
 			}
-			k, y := 2, 3
-			if tier == "thorough" {
-				k, y = 3, 4
-			}
-			out = append(out, &hist.Scenario{Name: fmt.Sprintf("c06/%s/%s/N2K%dY%d", f.name, strings.Join(al, "+"), k, y),
-				N: 2, Init: f.init, Alphabet: al, K: k, Y: y, Cfg: never})
+			mk(f, al, "", 2, 0, 2, 3, 0, 0, never)
 		}
 		for _, op := range f.ops {
-			// three clients
-			out = append(out, &hist.Scenario{Name: fmt.Sprintf("c06/%s/%s/N3K3Y4", f.name, op),
-				N: 3, Init: f.init, Alphabet: []string{op}, K: 3, Y: 4, MaxPerClient: 1, Cfg: never})
-			// attach/detach mixes: the detached client's row must vanish, minVV over the rest
-			out = append(out, &hist.Scenario{Name: fmt.Sprintf("c06/%s/%s/N2L1K2Y3D2", f.name, op),
-				N: 2, Late: 1, Init: f.init, Alphabet: []string{op}, K: 2, Y: 3, D: 2, Cfg: never})
-			// snapshots: receivers adopt the snapshot's clocks
-			out = append(out, &hist.Scenario{Name: fmt.Sprintf("c06/%s/%s/snap1-1/N1L1K2Y3", f.name, op),
-				N: 1, Late: 1, Init: f.init, Alphabet: []string{op}, K: 2, Y: 3, Cfg: hist.Config{Threshold: 1, Interval: 1}})
 			// one opted-out (disable_gc) participant
-			out = append(out, &hist.Scenario{Name: fmt.Sprintf("c06/%s/%s/optout1/N2K2Y3", f.name, op),
-				N: 2, Init: f.init, Alphabet: []string{op}, K: 2, Y: 3,
-				Cfg: hist.Config{Threshold: hist.Big, Interval: hist.Big, OptOut: []int{1}}})
+			mk(f, []string{op}, "optout1/", 2, 0, 2, 3, 0, 0, optout)
+			// three clients
+			mk(f, []string{op}, "", 3, 0, 3, 3, 0, 1, never)
+			// snapshots: receivers adopt the snapshot's clocks
+			mk(f, []string{op}, "snap1-1/", 1, 1, 2, 3, 0, 0, snap)
 		}
+	}
+	// attach/detach mixes: the detached client's row must vanish, minVV over the rest
+	for i, f := range fams {
+		mk(f, f.ops[:1], "", 2, 0, 1, 2, 2, 0, never)
+		if i < 3 || tier == "thorough" {
+			mk(f, f.ops[:1], "", 2, 1, 2, 2, 1, 0, never)
+		}
+	}
+	if tier == "quick" {
+		return out
+	}
+	for _, f := range fams {
+		for _, op := range f.ops {
+			mk(f, []string{op}, "snap2-2/", 1, 1, 3, 3, 0, 0, snap2)
+			mk(f, []string{op}, "", 3, 0, 3, 4, 0, 1, never)
+		}
+		for _, al := range pairs(f.ops) {
+			mk(f, al, "", 2, 0, 3, 3, 0, 0, never)
+		}
+	}
+	for _, f := range fams {
+		mk(f, f.ops[:1], "", 2, 1, 2, 3, 1, 0, never)
+	}
+	for _, f := range fams {
+		mk(f, f.ops[:1], "", 2, 0, 2, 3, 2, 0, never)
+	}
+	for _, f := range fams {
+		mk(f, f.ops[:1], "", 2, 1, 2, 2, 2, 0, never)
 	}
 	return out
 }
@@ -293,6 +320,6 @@ func init() {
 			"at every response: minVV <= every stored row pointwise, requester's row <= replica vector at request time, row gone after detach, no row for opted-out clients; " +
 			"non-trivial = concurrent edits",
 		Assume:      []string{"memdb backend", "presence-only changes carry no clock by design and are excluded"},
-		QuickBudget: 150 * time.Second,
+		QuickBudget: 300 * time.Second,
 	})
 }
